@@ -204,6 +204,7 @@ type Check struct {
 	// property itself (termination / promptness), not a resource skip.
 	HangIsViolation bool
 	HangLimit       time.Duration
+	HeapLimit       uint64
 }
 
 var registry = map[string]*Check{}
